@@ -276,6 +276,8 @@ def parse_model_state(line):
 
 def drop_stale_data(raw):
     """the server closes a parked data connection on PASV/EPSV: the client side sees EOF and lets go of it"""
+    if getattr(raw, "keep_data", False):
+        return  # the scenario wants the client to go on using the connection it made, whatever happened to the other end
     if raw.data is not None and (raw.data[0].at_eof() or raw.data[1].transport.is_closing()):
         try:
             raw.data[1].close()
